@@ -385,6 +385,8 @@ package http2
 //@ opt perreturn=true
 //@ let last = ite(len(dst) == 0, 0, len(dst) - 1)
 //@ ensures keep: forall(i, 0, last, r0[i] == old(dst)[i])
+//@ ensures grow: len(r0) >= len(dst) && len(r0) >= 1
+//@ ensures place: (samearray(r0, dst) && offset(r0) == offset(dst) && cap(r0) == cap(dst)) || fresh(r0)
 //@ ensures high: len(dst) > 0 ==> r0[last] - spec.intFirst(r0[last:], bits) == old(dst)[last]
 //@ ensures high0: len(dst) == 0 ==> r0[0] == spec.intFirst(r0[0:], bits)
 //@ opt chain=true
@@ -427,6 +429,7 @@ package http2
 //@ modifies capacity(dst)
 //@ opt body=skip
 //@ ensures keep: len(r0) >= len(dst) && r0[:len(dst)] == old(dst)
+//@ ensures place: (samearray(r0, dst) && offset(r0) == offset(dst) && cap(r0) == cap(dst)) || fresh(r0)
 
 //@ func errors.New
 //@ trusted
@@ -582,3 +585,30 @@ package http2
 //@ # (stated for literals without indexing; the incremental-indexing path goes through addDynamic, whose
 //@ # frame over pooled header fields is too coarse to carry hf across)
 //@ ensures sens: r1 == nil && len(b0) > 0 && c < 32 ==> hf.sensible == ((c & 240) == 16)
+
+//@ func bytes.Equal
+//@ trusted
+//@ pure
+//@ ensures eq: r0 <==> (len(a) == len(b) && forall(i, 0, len(a), a[i] == b[i]))
+
+//@ func (*HPACK).search
+//@ props C04
+//@ requires tbl: hpackOK(hp) && hf != nil
+//@ pure
+//@ loop 0: invariant idx: n == 0 && !fullMatch
+//@ loop 1: invariant idx: n < 62 && !fullMatch
+//@ # an index returned by the search is a valid index into the static or the dynamic table
+//@ ensures valid: r0 == 0 || r0 < 62 + len(hp.dynamic)
+//@ ensures full: r1 ==> r0 > 0
+
+//@ func appendString
+//@ props C04
+//@ modifies capacity(dst)
+//@ # frame and prefix preservation are not claimed here: they need src, dst and the pooled scratch buffer to be
+//@ # separate arrays, which no caller-visible precondition states yet
+//@ opt noframe=true
+//@ let o = len(dst)
+//@ ensures grow: len(r0) > o
+//@ # raw strings: H bit clear, the length as a 7-bit prefix integer, then the octets themselves (RFC 7541 section 5.2)
+//@ ensures rawlen: !encode && len(src) < 2097152 ==> r0[o] < 128 && spec.intVal(r0[o:], 7) == len(src) && spec.intLen(r0[o:], 7) + len(src) == len(r0) - o
+//@ ensures hbit: encode ==> r0[o] >= 128
